@@ -16,7 +16,7 @@ PROPS = {
     "C06": dict(families=["classic"], kinds=CORE + "LFRK"),
     "C07": dict(families=["ordered", "transport", "stoch", "mixed", "buffers"], kinds=CORE),
     "C08": dict(families=["ordered", "buffers", "mixed", "transport"], kinds=CORE),
-    "C09": dict(families=["setup", "stoch", "mixed"], kinds=CORE),
+    "C09": dict(families=["setup", "stoch", "mixed", "bigids"], kinds=CORE),
     "C10": dict(families=["outage", "stoch", "mixed"], kinds=CORE),
     "C11": dict(families=["ordered", "transport", "buffers", "mixed", "classic"], kinds=CORE),
     "C12": dict(families=["ordered", "shifted", "transport", "outage", "mixed", "classic"], kinds=CORE),
